@@ -455,17 +455,28 @@ def is_entry(prog, f, shared):
     return f.get("cls") in shared and f.get("access") == "public" and f["kind"] in ("method", "conv")
 
 
-def user_reaching(prog, cg):
-    """keys of functions from which a script function / registered C++ callback can be invoked"""
+def user_reaching(prog, cg, skip_edge=None):
+    """keys of functions from which a script function / registered C++ callback can be invoked.
+    skip_edge(caller_fn, node, callee_key) -> True to ignore a call edge (client-supplied path knowledge)."""
     roots = set()
     for f in prog.fns:
         if f["name"] in ("do_call", "eval_internal") or (f["name"] == "operator()" and strip_targs(f.get("cls") or "") == "chaiscript::dispatch::Proxy_Function_Base"):
             roots.add(fkey(f))
+    # functions that invoke a std::function / function pointer (user supplied callbacks, e.g. conversions)
+    for k, edges in cg.edges.items():
+        kf = prog._by_id.get(k)
+        if kf is None or kf["tk"] == "pattern":
+            continue          # dependent calls in uninstantiated templates are not real call sites
+        if any(kind == "indirect" for _, _, kind in edges):
+            roots.add(k)
     # reverse reachability
     rev = {}
     for k, edges in cg.edges.items():
+        kf = prog._by_id.get(k)
         for callee, node, kind in edges:
             if callee is not None:
+                if skip_edge is not None and kf is not None and skip_edge(kf, node, callee):
+                    continue
                 rev.setdefault(callee, set()).add(k)
     seen = set()
     stack = list(roots)
